@@ -285,3 +285,177 @@ Proof.
     assert (H2 : 0 <= fp_spec (floorT T (fst x)) xs) by apply cnt_nonneg.
     destruct (Z.eqb_spec (tp_spec (floorT T (fst x)) xs + fp_spec (floorT T (fst x)) xs) 0); [lia|reflexivity].
 Qed.
+
+(* ======================================================================================== *)
+(* the binned family's exact specs ARE the curves family's C05 specs (unit weights)            *)
+(* ======================================================================================== *)
+Definition lift (x : sample) : Curves.sample := (fst x, (snd x, 1%Qc)).
+
+Section VsCurves.
+Local Open Scope Qc_scope.
+Lemma zq_b2z b : zq (b2z b) = if b then 1 else 0.
+Proof. destruct b; [apply zq_1|apply zq_0]. Qed.
+Lemma zq_2 : zq 2 = Curves.two.
+Proof. apply Qc_is_canon. reflexivity. Qed.
+Lemma half_eq : 1 / (1 + 1) = Curves.half.
+Proof. apply Qc_is_canon. reflexivity. Qed.
+Lemma zq_sumZ l : zq (sumZ l) = Curves.sumq (map zq l).
+Proof. induction l as [|a l IH]; [apply zq_0|]. cbn [sumZ map fold_right Curves.sumq]. fold (sumZ l). rewrite zq_add. fold (Curves.sumq (map zq l)). rewrite IH. reflexivity. Qed.
+Lemma sumf_swap {A B} (F : A -> B -> Qc) la lb :
+  CurvesP.sumf (fun a => CurvesP.sumf (fun b => F a b) lb) la = CurvesP.sumf (fun b => CurvesP.sumf (fun a => F a b) la) lb.
+Proof.
+  induction la as [|a la IH].
+  - rewrite CurvesP.sumf_nil. symmetry. apply CurvesP.sumf_zero. intros; apply CurvesP.sumf_nil.
+  - rewrite CurvesP.sumf_cons, IH, <- CurvesP.sumf_add. apply CurvesP.sumf_ext_in. intros b _. rewrite CurvesP.sumf_cons. reflexivity.
+Qed.
+
+Lemma lift_sums xs :
+  Curves.sumq (map Curves.pw (map lift xs)) = zq (pos_spec xs) /\ Curves.sumq (map Curves.nw (map lift xs)) = zq (neg_spec xs).
+Proof.
+  unfold pos_spec, neg_spec. induction xs as [|x xs [IH1 IH2]]; [split; symmetry; apply zq_0|].
+  cbn [map]. rewrite !cnt_cons, !zq_add, !zq_b2z, <- IH1, <- IH2. unfold Curves.pw at 1, Curves.nw at 2, Curves.lab, Curves.wt, lift. cbn [fst snd].
+  split; destruct (snd x); reflexivity.
+Qed.
+Lemma lift_ge d xs : Curves.Pge d (map lift xs) = zq (tp_spec d xs) /\ Curves.Nge d (map lift xs) = zq (fp_spec d xs).
+Proof.
+  unfold Curves.Pge, Curves.Nge, tp_spec, fp_spec. induction xs as [|x xs [IH1 IH2]]; [split; symmetry; apply zq_0|].
+  cbn [map]. rewrite !cnt_cons, !zq_add, !zq_b2z. cbn [Curves.sumq fold_right]. fold (Curves.sumq (map (fun b => if (d <=? Curves.sc b)%Z then Curves.pw b else 0) (map lift xs))).
+  fold (Curves.sumq (map (fun b => if (d <=? Curves.sc b)%Z then Curves.nw b else 0) (map lift xs))). rewrite IH1, IH2.
+  unfold Curves.pw, Curves.nw, Curves.lab, Curves.wt, Curves.sc, lift. cbn [fst snd].
+  split; destruct (d <=? fst x)%Z, (snd x); reflexivity.
+Qed.
+
+Lemma pair2_lift xs : zq (pair2 xs) = Curves.two * Curves.pair_sum (map lift xs).
+Proof.
+  transitivity (CurvesP.sumf (fun q : sample => CurvesP.sumf (fun p : sample => Curves.two * Curves.pair_kern (lift p) (lift q)) xs) xs).
+  - unfold pair2. rewrite zq_sumZ, map_map. unfold CurvesP.sumf. f_equal. apply map_ext. intros q.
+    destruct (snd q) eqn:Eq.
+    + rewrite zq_0. symmetry. apply (CurvesP.sumf_zero (fun p : sample => Curves.two * Curves.pair_kern (lift p) (lift q)) xs).
+      intros p _. unfold Curves.pair_kern, Curves.nw, Curves.lab, lift. cbn [fst snd]. rewrite Eq. ring.
+    + rewrite zq_sumZ, map_map. f_equal. apply map_ext. intros p.
+      unfold Curves.pair_kern, Curves.pw, Curves.nw, Curves.lab, Curves.wt, Curves.sc, lift. cbn [fst snd]. rewrite Eq.
+      destruct (snd p); [|rewrite zq_0; ring].
+      rewrite zq_add, zq_mul, !zq_b2z, zq_2.
+      destruct (Z.ltb_spec (fst q) (fst p)); destruct (Z.eqb_spec (fst q) (fst p)); try lia; try ring.
+      transitivity (Curves.two * Curves.half); [rewrite CurvesP.two_half; ring|ring].
+  - unfold Curves.pair_sum. rewrite map_map.
+    rewrite (map_ext _ (fun p : sample => CurvesP.sumf (fun q : sample => Curves.pair_kern (lift p) (lift q)) xs))
+      by (intros p; unfold CurvesP.sumf; rewrite map_map; reflexivity).
+    change (Curves.sumq (map ?f xs)) with (CurvesP.sumf f xs).
+    rewrite <- CurvesP.sumf_scale, sumf_swap. apply CurvesP.sumf_ext_in. intros p _. rewrite CurvesP.sumf_scale. reflexivity.
+Qed.
+
+Theorem auroc_exact_is_C05 xs : auroc_exact xs = Curves.auroc_spec (map lift xs).
+Proof.
+  unfold auroc_exact, Curves.auroc_spec. cbv zeta. destruct (lift_sums xs) as [-> ->]. unfold qeq.
+  destruct (Qc_eq_dec (zq (pos_spec xs) * zq (neg_spec xs)) 0) as [E|E]; [apply half_eq|].
+  rewrite pair2_lift. change (1 + 1) with Curves.two. field.
+  repeat split; try exact CurvesP.two_neq0; intros H0; apply E; rewrite H0; ring.
+Qed.
+
+Lemma riemann_q_cs f c : forall L, Curves.riemann_q (map f L ++ [0]) (map c L ++ [1]) = cs f c L.
+Proof.
+  induction L as [|t L IH]; [reflexivity|]. destruct L as [|t1 L].
+  - cbn. ring.
+  - cbn [map app] in *. change (Curves.riemann_q (f t :: f t1 :: map f L ++ [0]) (c t :: c t1 :: map c L ++ [1]))
+      with ((f t - f t1) * c t + Curves.riemann_q (f t1 :: map f L ++ [0]) (c t1 :: map c L ++ [1])).
+    rewrite IH. rewrite (cs_cons f c t (t1 :: L)). reflexivity.
+Qed.
+
+Theorem auprc_exact_is_C05 xs : auprc_exact xs = Curves.auprc_spec (map lift xs).
+Proof.
+  unfold Curves.auprc_spec, Curves.prc_spec. cbv zeta. cbn [fst snd]. rewrite riemann_q_cs.
+  replace (map Curves.sc (map lift xs)) with (map fst xs) by (rewrite map_map; reflexivity).
+  rewrite <- distinct_asc_dset. set (ds := distinct_asc (map fst xs)).
+  destruct (Z.eq_dec (pos_spec xs) 0) as [HP|HP].
+  - unfold auprc_exact. rewrite HP. cbn. symmetry. apply cs_c0. intros d _. unfold Curves.prec_at.
+    destruct (lift_ge d xs) as [-> ->]. pose proof (tp_le_pos d xs). replace (tp_spec d xs) with 0%Z by lia. rewrite zq_0. unfold Qcdiv. ring.
+  - rewrite (auprc_exact_unfold xs HP), Ex_cs. fold ds. apply cs_ext_in; intros d _.
+    + unfold Curves.rec_at. cbv zeta. destruct (lift_sums xs) as [-> _]. destruct (lift_ge d xs) as [-> _].
+      destruct (Qc_eq_dec (zq (pos_spec xs)) 0) as [E|E]; [apply zq_inj0 in E; contradiction|reflexivity].
+    + unfold Curves.prec_at. destruct (lift_ge d xs) as [-> ->]. rewrite zq_add. reflexivity.
+Qed.
+End VsCurves.
+
+(* ======================================================================================== *)
+(* per class / per label: multiclass and multilabel binned AUPRC                               *)
+(* ======================================================================================== *)
+Lemma nrows_zmat m : nrows (zmat m) = map (map zq) m.
+Proof.
+  unfold nrows, zmat, nmat. cbn [narr]. rewrite map_map. rewrite (map_ext _ (fun l => l)) by (intros; apply nlist_nvec). apply map_id.
+Qed.
+Lemma combine_map_same {A B C} (f : A -> B) (g : A -> C) l : combine (map f l) (map g l) = map (fun x => (f x, g x)) l.
+Proof. induction l as [|a l IH]; [reflexivity|]. cbn [map combine]. rewrite IH. reflexivity. Qed.
+
+Section PerClass.
+Context {X : Type}.
+Variables (scs : X -> list Z) (hitf : X -> nat -> bool).
+(* the binary problem of column k *)
+Definition col (k : nat) (xs : list X) : list sample := map (fun x => (nth k (scs x) 0, hitf x k)) xs.
+
+Lemma qcols_table C T (f : nat -> nat -> list X -> Z) xs k : (k < C)%nat ->
+  map (fun r => nth k r 0%Qc) (nrows (zmat (spec_table C T f xs))) = map (fun i => zq (f i k xs)) (seq 0 (length T)).
+Proof.
+  intros Hk. rewrite nrows_zmat. unfold spec_table. rewrite !map_map. apply map_ext. intros i.
+  rewrite map_map. rewrite (nth_map_seq (fun c => zq (f i c xs)) 0%Qc C 0 k Hk). reflexivity.
+Qed.
+Lemma col_counts T xs k : asc T ->
+  map (fun i => zq (mtp_spec scs hitf T i k xs)) (seq 0 (length T)) = map zq (bin_tp T (col k xs)) /\
+  map (fun i => zq (mfp_spec scs hitf T i k xs)) (seq 0 (length T)) = map zq (bin_fp T (col k xs)) /\
+  map (fun i => zq (mfn_spec scs hitf T i k xs)) (seq 0 (length T)) = map zq (bin_fn T (col k xs)).
+Proof.
+  intros Hs. destruct (bin_vectors_spec T (col k xs) Hs) as (-> & -> & ->).
+  rewrite !map_map, !(map_nth_seq _ 0 T). unfold mfn_spec, fn_spec, mtp_spec, mfp_spec, mpos_spec, tp_spec, fp_spec, pos_spec, col.
+  repeat split; apply map_ext; intros i; rewrite ?cnt_map; reflexivity.
+Qed.
+
+Theorem auprc_columns_floor c xs : asc (thresholds c) -> thresholds c <> [] ->
+  (forall k x, (k < bC c)%nat -> In x xs -> hd 0 (thresholds c) <= nth k (scs x) 0) ->
+  m_gamma_auprc c (pack3 (counts_spec scs hitf (bC c) (thresholds c) xs))
+  = let a := map (fun k => Fin (auprc_exact (floored (thresholds c) (col k xs)))) (seq 0 (bC c)) in
+    if bmacro c then AMacro (xmean a) else AEach a.
+Proof.
+  intros Hs Hne Hge. unfold m_gamma_auprc, counts_spec, pack3, st_tp, st_fp, st_fn, nget. cbn [narr nth fst snd]. cbv zeta.
+  unfold qcols. rewrite combine_map_same, map2_map_same. cbn [fst snd].
+  rewrite (map_ext_in _ (fun k => Fin (auprc_exact (floored (thresholds c) (col k xs))))); [reflexivity|].
+  intros k Hk. apply in_seq in Hk. destruct Hk as [_ Hk]. cbn in Hk.
+  rewrite !qcols_table by exact Hk. destruct (col_counts (thresholds c) xs k Hs) as (-> & -> & ->).
+  apply binned_auprc_floor_thm; try assumption.
+  intros y Hy. unfold col in Hy. apply in_map_iff in Hy as (x & <- & Hx). cbn [fst]. apply Hge; assumption.
+Qed.
+End PerClass.
+
+Lemma mc_col_ovr k xs : col mc_scs mc_hit k xs = ovr k xs.
+Proof. reflexivity. Qed.
+(* MulticlassBinnedAUPRC / multiclass_binned_auprc: class k = exact AUPRC of the floored one-vs-rest problem *)
+Theorem mc_auprc_floor c xs : asc (thresholds c) -> thresholds c <> [] -> mc_ok (bC c) xs = true ->
+  (forall k x, (k < bC c)%nat -> In x xs -> hd 0 (thresholds c) <= nth k (fst x) 0) ->
+  m_gamma_auprc c (mc_beta c xs)
+  = let a := map (fun k => Fin (auprc_exact (floored (thresholds c) (ovr k xs)))) (seq 0 (bC c)) in
+    if bmacro c then AMacro (xmean a) else AEach a.
+Proof.
+  intros Hs Hne Hok Hge. unfold mc_beta. rewrite (mc_counts_spec c xs Hs Hok).
+  exact (auprc_columns_floor mc_scs mc_hit c xs Hs Hne Hge).
+Qed.
+(* MultilabelBinnedAUPRC / multilabel_binned_auprc: label k = exact AUPRC of the floored scores of column k *)
+Definition label_col (k : nat) (xs : list mlsample) : list sample := map (fun x => (nth k (fst x) 0, nth k (snd x) false)) xs.
+Theorem ml_auprc_floor c xs : asc (thresholds c) -> thresholds c <> [] -> ml_ok (bC c) xs = true ->
+  (forall k x, (k < bC c)%nat -> In x xs -> hd 0 (thresholds c) <= nth k (fst x) 0) ->
+  m_gamma_auprc c (ml_beta c xs)
+  = let a := map (fun k => Fin (auprc_exact (floored (thresholds c) (label_col k xs)))) (seq 0 (bC c)) in
+    if bmacro c then AMacro (xmean a) else AEach a.
+Proof.
+  intros Hs Hne Hok Hge. unfold ml_beta. rewrite (ml_counts_spec c xs Hs Hok).
+  exact (auprc_columns_floor ml_scs ml_hit c xs Hs Hne Hge).
+Qed.
+(* BinaryBinnedAUPRC / binary_binned_auprc: task t *)
+Theorem bauprc_rows_floor c rows : asc (thresholds c) -> thresholds c <> [] ->
+  (forall r x, In r rows -> In x r -> hd 0 (thresholds c) <= fst x) ->
+  map2 (fun tf fn => auprc_curve (fst tf) (snd tf) fn)
+       (combine (nrows (st_tp (bauprc_beta c rows))) (nrows (st_fp (bauprc_beta c rows)))) (nrows (st_fn (bauprc_beta c rows)))
+  = map (fun r => Fin (auprc_exact (floored (thresholds c) r))) rows.
+Proof.
+  intros Hs Hne Hge. unfold bauprc_beta, st_tp, st_fp, st_fn, nget. cbn [narr nth]. rewrite !nrows_zmat, !map_map.
+  rewrite combine_map_same, map2_map_same. cbn [fst snd]. apply map_ext_in. intros r Hr.
+  apply binned_auprc_floor_thm; try assumption. intros x Hx. apply (Hge r x Hr Hx).
+Qed.
